@@ -41,6 +41,9 @@ CLAIMED = {
     "C10": ("Lean 4 theorems on the termination model (explicit outcome, exact firing conditions, next-check stop) + virtual-clock correspondence and limit oracle",
             "Proof (model level): iteration, size and runtime limits fire exactly as stated, termination is always the explicit `terminated` naming the limit, frequency 0 is the only failing configuration, an exhausted budget stops at the next scheduled check. The call site (top of every loop turn) is in the loop model tied bit for bit to the code under a virtual clock hook; the oracle checks bounds, explicitness, and equality with the unlimited run.",
             "§5 C10"),
+    "C11": ("Lean 4 refinement proof of the ordered container to an insertion-ordered association list (abstraction function + representation invariant, all five representations, every history) and exact characterisation of every StateModel getter/setter; bit-exact / textual correspondence run of container histories, state-model operation sequences and collect_features+extend against the real code",
+            "Proof: CompactOrderedHashMap is modelled representation by representation (HashMap as an unordered association list; sorting exactly where the code sorts) and proved to refine an insertion-ordered association list for every history of inserts and overwrites from empty / new (distinct keys) / from_iter at every size: insert appends a new key, overwrites an existing key in place, returns the old value and preserves the invariant (stored indices are exactly 0..len-1, keys distinct); len, is_empty, contains_key, get, get_index, get_pair, keys, iter, indexed_iter, to_vec, into_iter agree with the list; HashMap order is unobservable. StateModel: slots are 0..n-1 bijectively, the initial state has n entries with the declared values in slot order, setters change only their own slot, getters read only their own slot, get-after-set round-trips within C09's 0.1% bound (exactly for equal units), add accumulates exactly in the feature's unit, extend keeps existing slots and appends new ones, codecs round-trip. new with a repeated key violates the invariant (counterexample theorems; finding container/new-duplicate-key), so the theorem about new carries the hypothesis 'keys distinct'. The model is tied to the code by a differential run (all accessors after every operation, doubles bit-exact).",
+            "§5 C11, Appendix A.5"),
 }
 
 NOT_YET = {
